@@ -1,7 +1,7 @@
 """C04 — implementation side: one grammar network under PIT, its costs before / after pruning, the exported
 network, its cost computed from scratch, PIT(exported) at initialisation, numel of the exported parameters.
 Everything returned is JSON-able; exceptions are observations."""
-import random, traceback, math
+import random, traceback, math, os
 from . import c04_net as cn
 from . import pitmask as pm
 
@@ -135,6 +135,34 @@ def read_costs(p, names, single):
     return out
 
 
+def respecify(p, specs_all, names, single, rng):
+    """after the masks are set: re-assign the cost specification (the documented on-the-fly switch rebuilds the
+    layer -> cost function map from the CURRENT layers) and re-observe every cost:
+      same      the very same specification again
+      switched  dict -> each single spec in turn (.cost) / single -> the dictionary of all specs (get_cost(name))
+      back      the original specification again"""
+    all_names = list(specs_all)
+    orig = specs_all[names[0]] if single else {n: specs_all[n] for n in names}
+    out = {}
+    p.cost_specification = orig
+    out['same'] = read_costs(p, names, single)
+    sw = {'cont': {}, 'disc': {}}
+    if single:
+        p.cost_specification = dict(specs_all)
+        r = read_costs(p, all_names, False)
+        sw = r
+    else:
+        for n in names:
+            p.cost_specification = specs_all[n]
+            r = read_costs(p, [n], True)
+            for d in ('cont', 'disc'):
+                sw[d][n] = r[d][n]
+    out['switched'] = sw
+    p.cost_specification = orig
+    out['back'] = read_costs(p, names, single)
+    return out
+
+
 def stem_excludable(spec, s):
     """excluding a layer is only well-defined (C09) when nothing ties its output width to a prunable tensor:
     here the stem (fed by the network input) when its features reach no residual add and no depthwise conv"""
@@ -163,8 +191,9 @@ def net_case(torch, seed, opts=None):
     from plinio.methods.pit.nn.features_masker import PITFrozenFeaturesMasker
     opts = dict(opts or {})
     rng = random.Random(seed)
-    spec = opts.get('spec') or cn.gen(rng, dim=rng.choice([1, 2]), conv_head=True, cmax=rng.choice([3, 6, 6]), p_twice=0.4)
-    o = {'seed': seed, 'arch': cn.describe(spec), 'spec': spec, 'skip': cn.skip_reason(spec), 'fails': [], 'opts': {k: v for k, v in opts.items() if k != 'spec'}}
+    spec = opts.get('spec') or cn.gen(rng, dim=rng.choice([1, 2]), conv_head=True, cmax=rng.choice([3, 6, 6]), p_twice=0.4,
+                                   weights=({'dw': 0.3, 'dwchain': 0.15} if rng.random() < 0.7 else {}))
+    o = {'seed': seed, 'arch': cn.describe(spec), 'spec': spec, 'skip': (cn.skip_reason(spec) if os.environ.get('C04_SKIP_C09_TOPOLOGIES', '1') == '1' else None), 'fails': [], 'opts': {k: v for k, v in opts.items() if k != 'spec'}}
     if o['skip']:
         return o
     dim = spec['dim']
@@ -182,7 +211,8 @@ def net_case(torch, seed, opts=None):
         excl = [cn.ga.name(cl[0])] if (rng.random() < 0.35 and stem_excludable(spec, cl[0])) else []
     o.update(single=single, names=names, full_cost=full, style=style, exclude=excl, dim=dim, discrete_at_init=dc0)
     try:
-        specs = get_specs(names)
+        specs_all = get_specs(all_names)
+        specs = {n: specs_all[n] for n in names}
         cost_arg = specs[names[0]] if single else specs
         m = cn.build(spec, seed=seed).eval()
         xs = cn.ga.example_input(spec, torch, seed)
@@ -196,10 +226,21 @@ def net_case(torch, seed, opts=None):
         mod_index = {id(layer): i for i, (ln, layer) in enumerate(uniq)}
         counted = [ln for ln, layer in uniq if isinstance(layer, PITModule) or full]
         o['counted'] = counted
-        o['orig_plain'] = {n: plain_cost(torch, nn, m, sites0, specs[n], counted) for n in names}
+        o['orig_plain'] = {n: plain_cost(torch, nn, m, sites0, specs_all[n], counted) for n in all_names}
         o['open'] = read_costs(p, names, single)
         set_masks(torch, rng, p, style, tpat)
         o['pruned'] = read_costs(p, names, single)
+        o['respec'] = respecify(p, specs_all, names, single, rng)
+        # a PIT wrapper constructed when the masks are ALREADY pruned: the converted seed wrapped again without
+        # auto-conversion (its layer -> cost function map is created after the pruning)
+        try:
+            import copy
+            p2 = PIT(copy.deepcopy(p.seed), cost=cost_arg, input_shape=tuple(spec['input_shape']), autoconvert_layers=False, discrete_cost=True, full_cost=full, exclude_names=excl)
+            p2.eval()
+            o['rewrap'] = read_costs(p2, names, single)
+        except Exception as ex:
+            o['rewrap_exc'] = '%s: %s' % (type(ex).__name__, str(ex)[:200])
+        p.discrete_cost = dc0
         summ = p.summary()
         layers = []
         for ln, layer in uniq:
@@ -226,9 +267,10 @@ def net_case(torch, seed, opts=None):
             if nm in sites1:
                 exp_layers[nm] = dict(layer_attrs(nn, mod), sites=sites1[nm], numel=numel_of(nn, mod))
         o['exported'] = exp_layers
-        o['exp_plain'] = {n: plain_cost(torch, nn, e, sites1, specs[n], counted) for n in names}
+        o['exp_plain'] = {n: plain_cost(torch, nn, e, sites1, specs_all[n], counted) for n in all_names}
         o['degenerate'] = degenerate_layers(o)
-        o['exp_plain_generic'] = {n: plain_cost(torch, nn, e, sites1, specs[n], counted, generic_for=o['degenerate']) for n in names}
+        o['exp_plain_generic'] = {n: plain_cost(torch, nn, e, sites1, specs_all[n], counted, generic_for=o['degenerate']) for n in all_names}
+        o['dw_pruned'] = [L['name'] for L in layers if L['search'] and L['kind'] != 'linear' and L['groups'] > 1 and L['groups'] == L['cin'] == L['cout'] and L['summary']['out_features'] < L['cout']]
         o['exp_numel'] = sum(v['numel'] for nm, v in exp_layers.items() if nm in counted)
         pe = PIT(e, cost=cost_arg, input_shape=tuple(spec['input_shape']), discrete_cost=dc0, full_cost=full, exclude_names=excl)
         pe.eval()
